@@ -100,7 +100,8 @@ def chanFor (pre post : World) (ad : Addr) (sid : Sid) (f : String) : String :=
       else if ad.op = "sub" ∧ code = "200" then isRd post
       else ad.viaChn                                       -- everything else echoes the spelling of the request
     else sessChn || userChn                                -- broadcast: a reader's session, or a session of a user cached as a reader
-  let blank := kind = "data" ∧ (if ad.op = "get" ∧ mine then ad.viaChn else sessChn)
+  -- the author is withheld from a channel reader: in the history whichever spelling asks for it, in a broadcast by session
+  let blank := kind = "data" ∧ (if ad.op = "get" ∧ mine then (ad.viaChn || isRd pre) else sessChn)
   let ws := if useChn then ws.set idx ("chn:" ++ tn) else ws
   let ws := if blank then ws.map (fun w => if w.startsWith "from=" then "from=-" else w) else ws
   " ".intercalate ws
